@@ -387,6 +387,7 @@ DB = "nostr_relay/storage/db.py"
 KV = "nostr_relay/storage/kv.py"
 
 MUTANTS = [
+    M("c09-d-stripped", "nostr_relay/storage/kv.py", "            return tag[1] if len(tag) > 1 else \"\"", "            return tag[1].strip() if len(tag) > 1 else \"\"", "C09.dverbatim"),
 ] + [
     M("c09-" + m.id, m.rel, m.old, m.new, "C09.txn", m.where, False, m.count) for m in __import__("sa.props.c07", fromlist=["MUTANTS"]).MUTANTS if m.expect == "C07.sqlregion"
 ] + [
